@@ -17,7 +17,7 @@ Print Assumptions C15_lookup_rename.
 
 Theorem C15_ocode_rename : forall E m st dol len f o,
   (forall l k, In k (map fst st) -> f k = f l -> k = l) ->
-  match o with OInstr _ _ => False | _ => True end ->
+  match o with OInstr _ _ _ => False | _ => True end ->
   gen_ocode E m (rename_sym f st) dol len (rename_ocode f o) = gen_ocode E m st dol len o.
 Proof. exact gen_rename. Qed.
 Print Assumptions C15_ocode_rename.
